@@ -32,11 +32,20 @@ impl<'a> Bpb<'a> {
 
         let root_dir_blocks =
             BlockCount::from_bytes(u32::from(bpb.root_entries_count()) * OnDiskDirEntry::LEN_U32).0;
-        let non_data_blocks = u32::from(bpb.reserved_block_count())
-            + (u32::from(bpb.num_fats()) * bpb.fat_size())
-            + root_dir_blocks;
-        let data_blocks = bpb.total_blocks() - non_data_blocks;
-        bpb.cluster_count = data_blocks / u32::from(bpb.blocks_per_cluster());
+        // These fields come straight off the disk, so don't trust them not
+        // to overflow.
+        let non_data_blocks = u32::from(bpb.num_fats())
+            .checked_mul(bpb.fat_size())
+            .and_then(|n| n.checked_add(u32::from(bpb.reserved_block_count())))
+            .and_then(|n| n.checked_add(root_dir_blocks))
+            .ok_or("Bad BPB: FATs too large")?;
+        let data_blocks = bpb
+            .total_blocks()
+            .checked_sub(non_data_blocks)
+            .ok_or("Bad BPB: volume too small")?;
+        bpb.cluster_count = data_blocks
+            .checked_div(u32::from(bpb.blocks_per_cluster()))
+            .ok_or("Bad BPB: zero blocks per cluster")?;
         if bpb.cluster_count < 4085 {
             return Err("FAT12 is unsupported");
         } else if bpb.cluster_count < 65525 {
